@@ -146,7 +146,7 @@ def register(add, NOTE):
         "Rocq proof (parser/printer round trip for the prompt automaton) + vm_compute correspondence on the real text + independent re-reading oracle",
         "DESIGN.md §6 C18", note=NOTE + PART)
     add("C20",
-        "Theorems: for every assignment of admissible faults to the 21 stages of main (parsing and constructing each kind of option, "
+        "Theorems: for every assignment of admissible faults to the 22 stages of main (parsing and constructing each kind of option, "
         "transformations, media, Mininec(), sources, loads, attachments, distributed loads, angles, near field, compute, fields, report) the "
         "run ends in the report or in the diagnostic of the first failing stage, never in an uncaught exception; the same table before the "
         "repairs is refuted by a witness (frequency zero); the frequency guard 0 < f < 1e150 keeps every constant of the frequency setter "
